@@ -414,8 +414,10 @@ func runC09(cw *caseWriter, tier string, seed uint64) {
 	c08gen(cw, tier, &rng{s: seed})
 	if tier == "quick" {
 		runScenarios(cw, 10, seed*100000, 100, 12)
+		runScenarios(cw, 19, seed*100000, 24, 12) // two overlapping calls: each needs its own majority
 	} else {
 		runScenarios(cw, 10, seed*100000, 2500, 12)
+		runScenarios(cw, 19, seed*100000, 400, 12)
 	}
 }
 
